@@ -65,6 +65,32 @@ Qed.
 Lemma hashI_inj t u t' u' : hashI t u = hashI t' u' -> t = t' /\ u = u'.
 Proof. unfold hashI. intros E. inversion E. auto. Qed.
 
+
+(* ------------------------------------------------------------------ facts about templated names *)
+Definition TFP := "__splink__df_tf_".
+Definition is_named_name (n : string) : bool := String.eqb n CWTF || String.eqb n CONCAT || prefix TFP n.
+Lemma named_tf c : is_named_name (tfname c) = true.
+Proof. unfold is_named_name, tfname. cbn. destruct c; reflexivity. Qed.
+Lemma tfname_inj a b : tfname a = tfname b -> a = b.
+Proof. unfold tfname. cbn. intros H. inversion H. auto. Qed.
+Lemma tf_not_cwtf c : tfname c <> CWTF.
+Proof. unfold tfname, CWTF. cbn. intros H. inversion H. Qed.
+Lemma tf_not_concat c : tfname c <> CONCAT.
+Proof. unfold tfname, CONCAT. cbn. intros H. inversion H. Qed.
+Lemma cwtf_not_concat : CWTF <> CONCAT.
+Proof. unfold CWTF, CONCAT. intros H. inversion H. Qed.
+Lemma not_named_neq n : is_named_name n = false -> n <> CWTF /\ n <> CONCAT /\ forall c, n <> tfname c.
+Proof.
+  unfold is_named_name. intros H. apply orb_false_iff in H. destruct H as [H H3]. apply orb_false_iff in H. destruct H as [H1 H2].
+  apply String.eqb_neq in H1. apply String.eqb_neq in H2. repeat split; auto.
+  intros c ->. fold (is_named_name (tfname c)) in *. pose proof (named_tf c) as Hc. unfold is_named_name in Hc.
+  rewrite H3 in Hc. apply String.eqb_neq in H1. apply String.eqb_neq in H2. rewrite H1, H2 in Hc. discriminate.
+Qed.
+Lemma derive_other n p ch : n <> CONCAT -> derive n p ch = PDerived n p ch.
+Proof. intros H. unfold derive. apply String.eqb_neq in H. rewrite H. auto. Qed.
+Lemma derive_alias p q c r : derive CONCAT p [PDerived CWTF q (c :: r)] = c.
+Proof. unfold derive. rewrite !String.eqb_refl. auto. Qed.
+
 Section Proofs.
   Variable K : Type.
   Variable keqb : K -> K -> bool.
@@ -717,7 +743,7 @@ Section Proofs.
     op_ok_hashed o = true -> (forall v, o <> ChangeInputInvalidate v) -> Forall plain (prog_of_op K s o).
   Proof.
     intros Hok Hne. destruct o; cbn in Hok; try discriminate; cbn; unfold predict_prog;
-      repeat (apply Forall_cons || apply Forall_nil || apply Forall_app || split); try exact I0; cbn; auto.
+      repeat (apply Forall_cons || apply Forall_nil || apply Forall_app || split); try exact Logic.I; cbn; auto.
     exfalso. eapply Hne. reflexivity.
   Qed.
 
@@ -803,4 +829,896 @@ Section Proofs.
     unfold Cache.content. rewrite He. destruct (Hs _ _ _ He) as (t' & Hk & _ & Hpv & _).
     rewrite e in Hk. apply hash_inj in Hk. destruct Hk as [<- _]. auto.
   Qed.
+  (* ================================================================ predict = closed-form spec *)
+  Definition concat_spec (s : state) : prov :=
+    derive CONCAT 0 (map (fun l => content (st_db K s) (PL l)) (st_inputs K s)).
+  (* content of the lookup registered for column c, if any *)
+  Definition lookup_of (s : state) (c : string) : option prov :=
+    match aget (st_cache K s) (named (tfname c)) with
+    | Some h => if is_hashed K (h_phys K h) then None else Some (content (st_db K s) (h_phys K h))
+    | None => None
+    end.
+  Definition tf_spec (s : state) (c : string) : prov :=
+    match lookup_of s c with Some v => v | None => derive (tfname c) 0 [concat_spec s] end.
+  Definition cwtf_spec (s : state) : prov := derive CWTF 0 (concat_spec s :: map (tf_spec s) (st_tfcols K s)).
+  Definition predict_spec (s : state) : prov :=
+    derive PREDICT (st_params K s) [derive BLOCKED 0 [cwtf_spec s]; cwtf_spec s].
+
+  Definition hashed_ok (s : state) (h : handle) (n : string) (v : prov) : Prop :=
+    exists t, h_src K h = Mat t /\ name_of t = n /\ h_phys K h = PH n (hash t (st_uid K s)) /\ h_cbs K h = true /\
+              amem (st_db K s) (h_phys K h) = true /\ denote (st_db K s) t = v.
+  Definition lookup_ok (s : state) (h : handle) : Prop :=
+    exists l, h_phys K h = PL l /\ h_src K h = Leaf l /\ h_cbs K h = false /\ amem (st_db K s) (PL l) = true.
+
+  (* [strict]: the cached concat_with_tf is the one the current lookups denote; the weak form (strict = False)
+     holds between the two steps of the repaired register_term_frequency_lookup *)
+  Record NamedOKg (strict : Prop) (s : state) : Prop := {
+    nk_keys : forall l h, aget (st_cache K s) (PL l) = Some h -> l = LPlain CWTF \/ exists c, l = LPlain (tfname c);
+    nk_cwtf : forall h, aget (st_cache K s) (named CWTF) = Some h ->
+              exists v, hashed_ok s h CWTF v /\ (strict -> v = cwtf_spec s);
+    nk_tf : forall c h, aget (st_cache K s) (named (tfname c)) = Some h ->
+              hashed_ok s h (tfname c) (derive (tfname c) 0 [concat_spec s]) \/ lookup_ok s h
+  }.
+  Notation NamedOK := (NamedOKg True).
+
+  (* registered leaves keep their rows *)
+  Definition leaves_stable (s s' : state) : Prop :=
+    forall l, amem (st_db K s) (PL l) = true -> aget (st_db K s') (PL l) = aget (st_db K s) (PL l).
+  Definition extends (s s' : state) : Prop :=
+    leaves_stable s s' /\ (forall p, amem (st_db K s) p = true -> amem (st_db K s') p = true).
+  Lemma grows_extends s s' : grows s s' -> extends s s'.
+  Proof. intros [H1 H2]. split; [intros l _; symmetry; apply H1 | auto]. Qed.
+
+  Lemma hashed_leaves s h n v : Sound s -> hashed_ok s h n v ->
+    exists t, h_src K h = Mat t /\ forall l, In l (leaves t) -> amem (st_db K s) (PL l) = true.
+  Proof.
+    intros Hs (t & a & b & c & d & e & f). exists t. split; auto.
+    rewrite c in e. apply amem_true in e. destruct e as [e0 He].
+    destruct (Hs _ _ _ He) as (t' & Hk & _ & _ & Hl). apply hash_inj in Hk. destruct Hk as [<- _]. auto.
+  Qed.
+
+  Lemma denote_stable s s' t :
+    leaves_stable s s' -> (forall l, In l (leaves t) -> amem (st_db K s) (PL l) = true) ->
+    denote (st_db K s') t = denote (st_db K s) t.
+  Proof. intros E Hl. apply denote_ext. intros l Hin. unfold Cache.content. rewrite E; auto. Qed.
+
+  Lemma concat_spec_frame s s' :
+    InvS s -> leaves_stable s s' -> st_inputs K s' = st_inputs K s -> concat_spec s' = concat_spec s.
+  Proof.
+    intros I E Hi. unfold concat_spec. rewrite Hi. f_equal. apply map_ext_in. intros l Hin. unfold Cache.content.
+    rewrite E; auto. apply (iv_inputs _ I). auto.
+  Qed.
+
+  Lemma cwtf_spec_frame s s' :
+    concat_spec s' = concat_spec s -> (forall c, lookup_of s' c = lookup_of s c) ->
+    st_tfcols K s' = st_tfcols K s -> cwtf_spec s' = cwtf_spec s.
+  Proof.
+    intros C L Ht. unfold cwtf_spec. rewrite Ht, C. f_equal. f_equal.
+    apply map_ext. intros c. unfold tf_spec. rewrite L, C. auto.
+  Qed.
+
+  Lemma lookup_of_frame St s s' :
+    NamedOKg St s -> (forall l, aget (st_cache K s') (PL l) = aget (st_cache K s) (PL l)) -> leaves_stable s s' ->
+    forall c, lookup_of s' c = lookup_of s c.
+  Proof.
+    intros N Hc E c. unfold lookup_of, Cache.named. rewrite Hc.
+    destruct (aget (st_cache K s) (PL (LPlain (tfname c)))) eqn:Eg; auto.
+    destruct (is_hashed K (h_phys K h)) eqn:Eh; auto.
+    destruct (nk_tf _ _ N _ _ Eg) as [(t & _ & _ & Hp & _)|(l & Hp & _ & _ & Hm)]; [rewrite Hp in Eh; discriminate|].
+    rewrite Hp. unfold Cache.content. rewrite E; auto.
+  Qed.
+
+  Lemma hashed_ok_frame s s' h n v :
+    Sound s -> leaves_stable s s' -> st_uid K s' = st_uid K s -> amem (st_db K s') (h_phys K h) = true ->
+    hashed_ok s h n v -> hashed_ok s' h n v.
+  Proof.
+    intros Hs Hx Hu Hm Hh. destruct (hashed_leaves _ _ _ _ Hs Hh) as (t0 & Ht0 & Hl).
+    destruct Hh as (t & a & b & c & d & e & f). rewrite a in Ht0. inversion Ht0; subst t0.
+    exists t. rewrite Hu. repeat (split; auto). rewrite <- f. apply denote_stable; auto.
+  Qed.
+
+  (* general frame: named entries may disappear, the remaining ones keep their tables *)
+  Lemma NamedOK_frame_gen St s s' :
+    InvS s -> Sound s -> NamedOKg St s ->
+    (forall l h, aget (st_cache K s') (PL l) = Some h -> aget (st_cache K s) (PL l) = Some h) ->
+    (forall l h, aget (st_cache K s') (PL l) = Some h -> amem (st_db K s') (h_phys K h) = true) ->
+    (forall c, lookup_of s' c = lookup_of s c) ->
+    leaves_stable s s' ->
+    st_uid K s' = st_uid K s -> st_inputs K s' = st_inputs K s -> st_tfcols K s' = st_tfcols K s ->
+    NamedOKg St s'.
+  Proof.
+    intros I Hs N Hc Hm L Hx Hu Hi Ht.
+    pose proof (concat_spec_frame s s' I Hx Hi) as C.
+    pose proof (cwtf_spec_frame s s' C L Ht) as W.
+    constructor.
+    - intros l h Hg. apply Hc in Hg. eapply (nk_keys _ _ N); eauto.
+    - intros h Hg. pose proof (Hm _ _ Hg) as Hm'. apply Hc in Hg. destruct (nk_cwtf _ _ N _ Hg) as (v & Hv & Hst).
+      exists v. split; [eapply hashed_ok_frame; eauto | rewrite W; auto].
+    - intros c h Hg. rewrite C. pose proof (Hm _ _ Hg) as Hm'. apply Hc in Hg.
+      destruct (nk_tf _ _ N _ _ Hg) as [Hh|(l & a & b & d & e)]; [left; eapply hashed_ok_frame; eauto|].
+      right. exists l. repeat (split; auto). rewrite <- a. auto.
+  Qed.
+
+  Lemma named_in_db St s l h : NamedOKg St s -> aget (st_cache K s) (PL l) = Some h -> amem (st_db K s) (h_phys K h) = true.
+  Proof.
+    intros N Hg. destruct (nk_keys _ _ N _ _ Hg) as [->|[c ->]].
+    - destruct (nk_cwtf _ _ N _ Hg) as (v & (t & _ & _ & _ & _ & e & _) & _). auto.
+    - destruct (nk_tf _ _ N _ _ Hg) as [(t & _ & _ & _ & _ & e & _)|(l0 & a & _ & _ & e)]; [auto|rewrite a; auto].
+  Qed.
+
+  Lemma NamedOK_frame St s s' :
+    InvS s -> Sound s -> NamedOKg St s ->
+    (forall l, aget (st_cache K s') (PL l) = aget (st_cache K s) (PL l)) -> extends s s' ->
+    st_uid K s' = st_uid K s -> st_inputs K s' = st_inputs K s -> st_tfcols K s' = st_tfcols K s ->
+    NamedOKg St s'.
+  Proof.
+    intros I Hs N Hc [Hx Hm] Hu Hi Ht. apply (NamedOK_frame_gen St s s'); auto.
+    - intros l h. rewrite Hc. auto.
+    - intros l h. rewrite Hc. intros Hg. apply Hm. eapply named_in_db; eauto.
+    - eapply lookup_of_frame; eauto.
+  Qed.
+
+  (* ---------------------------------------------------------------- drop keeps the named invariant *)
+  Lemma NamedOK_drop St s h :
+    InvS s -> Sound s -> NamedOKg St s -> cbs_hashed h -> NamedOKg St (fst (drop_handle K keqb s h)).
+  Proof.
+    intros I Hs N Hh. rewrite drop_handle_fst. destruct (h_cbs K h) eqn:Ec; auto.
+    specialize (Hh Ec). destruct (h_phys K h) as [l0|n0 k0] eqn:Ep; [discriminate|].
+    set (s' := set_cache K (set_db K s (aremove (st_db K s) (PH n0 k0))) (cache_remove_phys K keqb (st_cache K s) (PH n0 k0))).
+    assert (Hg : forall key, aget (st_cache K s') key =
+                 match aget (st_cache K s) key with
+                 | Some h' => if pname_eqb (h_phys K h') (PH n0 k0) then None else Some h'
+                 | None => None end).
+    { intros key. unfold s'. cbn. unfold cache_remove_phys. rewrite aget_filter by apply (iv_nodup _ I).
+      destruct (aget (st_cache K s) key) eqn:E; auto. cbn. destruct (pname_eqb (h_phys K h0) (PH n0 k0)); auto. }
+    apply (NamedOK_frame_gen St s s'); auto.
+    - intros l h'. rewrite Hg. destruct (aget (st_cache K s) (PL l)); [|discriminate].
+      destruct (pname_eqb (h_phys K h0) (PH n0 k0)); [discriminate|auto].
+    - intros l h'. rewrite Hg. destruct (aget (st_cache K s) (PL l)) eqn:E; [|discriminate].
+      destruct (pname_eqb (h_phys K h0) (PH n0 k0)) eqn:E2; [discriminate|]. intros H. inversion H; subst h0.
+      unfold s'. cbn. rewrite amem_aremove.
+      assert (Hne : pname_eqb (PH n0 k0) (h_phys K h') = false).
+      { destruct (pname_eqb (PH n0 k0) (h_phys K h')) eqn:E3; auto. apply pname_eqb_spec in E3. rewrite <- E3, pname_eqb_refl in E2. discriminate. }
+      rewrite Hne. cbn. eapply named_in_db; eauto.
+    - intros c. unfold lookup_of. rewrite Hg. fold (named (tfname c)).
+      destruct (aget (st_cache K s) (named (tfname c))) eqn:E; auto.
+      destruct (pname_eqb (h_phys K h0) (PH n0 k0)) eqn:E2.
+      + apply pname_eqb_spec in E2. rewrite E2. auto.
+      + destruct (is_hashed K (h_phys K h0)) eqn:Eh; auto.
+        destruct (h_phys K h0) as [l1|] eqn:Ep0; [|discriminate].
+        unfold s'. cbn. rewrite content_aremove_other; auto. discriminate.
+    - intros l _. unfold s'. cbn. apply aget_aremove_other. discriminate.
+  Qed.
+
+  (* ---------------------------------------------------------------- result of one (cached) pipeline *)
+  Lemma exec_result s templ tree al mids :
+    InvS s -> Sound s -> name_of tree = templ ->
+    aget (st_cache K s) (named templ) = None ->
+    forallb (amem (st_db K s)) (direct_refs (st_uid K s) tree) = true ->
+    let r := exec_pipeline K keqb hash s templ tree al mids true in
+    let s' := fst (fst r) in let h := snd (fst r) in
+    h_src K h = Mat tree /\ h_phys K h = PH templ (hash tree (st_uid K s)) /\ h_cbs K h = true /\
+    amem (st_db K s') (h_phys K h) = true /\ content (st_db K s') (h_phys K h) = denote (st_db K s') tree.
+  Proof.
+    intros I Hs Hn Hnone Hr. unfold exec_pipeline. rewrite (iv_nodebug _ I), Hnone.
+    destruct (aget (st_cache K s) (PH templ (hash tree (st_uid K s)))) eqn:E.
+    - cbn. destruct (iv_cache_h _ I _ _ _ E) as (a & b & c & t & d & e & f).
+      apply hash_inj in e. destruct e as [<- _]. rewrite a. repeat (split; auto).
+      apply amem_true in c. destruct c as [e0 He]. unfold Cache.content. rewrite He.
+      destruct (Hs _ _ _ He) as (t' & Hk & _ & Hp & _). apply hash_inj in Hk. destruct Hk as [<- _]. auto.
+    - destruct (amem (st_db K s) (PH templ (hash tree (st_uid K s)))) eqn:Em.
+      + apply (iv_db_h _ I) in Em. unfold Cache.amem in Em. rewrite E in Em. discriminate.
+      + destruct (exec_run_spec s templ tree I Hs Hn) as (_ & _ & _ & _ & _ & a & b & _ & c).
+        destruct (c Hr) as (c1 & c2 & c3). cbn in *. unfold ph_of in *. repeat (split; auto).
+        rewrite b. destruct (exec_run_spec s templ tree I Hs Hn) as (I' & _). 
+        destruct (iv_cache_h _ I' _ _ _ c3) as (_ & _ & x & _). auto.
+  Qed.
+  (* ---------------------------------------------------------------- storing named entries *)
+  Lemma weak_absent St s : NamedOKg St s -> aget (st_cache K s) (named CWTF) = None -> NamedOK s.
+  Proof.
+    intros N Ha. constructor; [apply (nk_keys _ _ N)| |apply (nk_tf _ _ N)]. intros h Hg. rewrite Ha in Hg. discriminate.
+  Qed.
+  Lemma NamedOK_weaken St s : NamedOKg St s -> NamedOKg False s.
+  Proof.
+    intros N. constructor; [apply (nk_keys _ _ N)| |apply (nk_tf _ _ N)].
+    intros h Hg. destruct (nk_cwtf _ _ N _ Hg) as (v & Hv & _). exists v. split; auto. intros [].
+  Qed.
+
+  Lemma named_inj a b : named a = named b -> a = b.
+  Proof. unfold Cache.named. intros H. congruence. Qed.
+  Lemma PL_LPlain_inj a l : named a = PL l -> l = LPlain a.
+  Proof. unfold Cache.named. intros H. congruence. Qed.
+  Lemma named_tf_neq_cwtf c : named (tfname c) <> named CWTF.
+  Proof. intros H. apply named_inj in H. eapply tf_not_cwtf; eauto. Qed.
+
+  Lemma lookup_of_set_other s c c' h :
+    c' <> c -> lookup_of (set_cache K s (aset (st_cache K s) (named (tfname c)) h)) c' = lookup_of s c'.
+  Proof.
+    intros Hne. unfold lookup_of. cbn. rewrite aget_aset_other; auto.
+    intros H. apply named_inj in H. apply tfname_inj in H. auto.
+  Qed.
+
+  (* compute_tf_table / register_term_frequency_lookup store a named term-frequency entry *)
+  Lemma NamedOK_set_tf St s c h :
+    NamedOKg St s ->
+    hashed_ok s h (tfname c) (derive (tfname c) 0 [concat_spec s]) \/ lookup_ok s h ->
+    let s' := set_cache K s (aset (st_cache K s) (named (tfname c)) h) in
+    NamedOKg False s' /\
+    ((forall c', In c' (st_tfcols K s) -> lookup_of s' c' = lookup_of s c') -> NamedOKg St s').
+  Proof.
+    intros N Hh s'.
+    assert (C : concat_spec s' = concat_spec s) by reflexivity.
+    assert (Hk : forall l h0, aget (st_cache K s') (PL l) = Some h0 -> l = LPlain CWTF \/ exists c0, l = LPlain (tfname c0)).
+    { intros l h0. unfold s'. cbn. rewrite aget_aset. destruct (pname_eqb (named (tfname c)) (PL l)) eqn:E.
+      - apply pname_eqb_spec in E. apply PL_LPlain_inj in E. intros _. right. eauto.
+      - apply (nk_keys _ _ N). }
+    assert (Htf : forall c0 h0, aget (st_cache K s') (named (tfname c0)) = Some h0 ->
+                  hashed_ok s' h0 (tfname c0) (derive (tfname c0) 0 [concat_spec s']) \/ lookup_ok s' h0).
+    { intros c0 h0. unfold s'. cbn. rewrite aget_aset. destruct (pname_eqb (named (tfname c)) (named (tfname c0))) eqn:E.
+      - apply pname_eqb_spec in E. apply named_inj in E. apply tfname_inj in E. subst c0. intros H. inversion H; subst h0. exact Hh.
+      - apply (nk_tf _ _ N). }
+    assert (Hcw : forall h0, aget (st_cache K s') (named CWTF) = Some h0 -> aget (st_cache K s) (named CWTF) = Some h0).
+    { intros h0. unfold s'. cbn. rewrite aget_aset_other; auto. intros X. symmetry in X. apply named_tf_neq_cwtf in X. auto. }
+    split.
+    - constructor; auto. intros h0 Hg. apply Hcw in Hg. destruct (nk_cwtf _ _ N _ Hg) as (v & Hv & _).
+      exists v. split; [exact Hv|intros []].
+    - intros L. constructor; auto. intros h0 Hg. apply Hcw in Hg. destruct (nk_cwtf _ _ N _ Hg) as (v & Hv & Hst).
+      exists v. split; [exact Hv|]. intros X. rewrite (Hst X). unfold cwtf_spec. rewrite C. f_equal. f_equal.
+      change (st_tfcols K s') with (st_tfcols K s). apply map_ext_in. intros c' Hin. unfold tf_spec. rewrite L, C; auto.
+  Qed.
+
+  Lemma NamedOK_set_cwtf St s h :
+    NamedOKg St s -> hashed_ok s h CWTF (cwtf_spec s) ->
+    NamedOK (set_cache K s (aset (st_cache K s) (named CWTF) h)).
+  Proof.
+    intros N Hh. set (s' := set_cache K s (aset (st_cache K s) (named CWTF) h)).
+    assert (L : forall c, lookup_of s' c = lookup_of s c).
+    { intros c. unfold lookup_of, s'. cbn. rewrite aget_aset_other; auto. apply named_tf_neq_cwtf. }
+    assert (C : concat_spec s' = concat_spec s) by reflexivity.
+    assert (W : cwtf_spec s' = cwtf_spec s) by (apply cwtf_spec_frame; auto).
+    constructor.
+    - intros l h0. unfold s'. cbn. rewrite aget_aset. destruct (pname_eqb (named CWTF) (PL l)) eqn:E.
+      + apply pname_eqb_spec in E. apply PL_LPlain_inj in E. auto.
+      + apply (nk_keys _ _ N).
+    - intros h0. unfold s'. cbn. rewrite aget_aset_same. intros H. inversion H; subst h0.
+      exists (cwtf_spec s). split; [exact Hh|]. intros _. symmetry. exact W.
+    - intros c h0. unfold s'. cbn. rewrite aget_aset_other by apply named_tf_neq_cwtf. apply (nk_tf _ _ N).
+  Qed.
+
+  (* ---------------------------------------------------------------- trees built by the two named computations *)
+  Lemma forallb_flat_map {A B} (f : B -> bool) (g : A -> list B) l :
+    forallb f (flat_map g l) = forallb (fun x => forallb f (g x)) l.
+  Proof. induction l; cbn; auto. rewrite forallb_app, IHl. auto. Qed.
+
+  Lemma denote_concat_tree s : denote (st_db K s) (concat_tree K s) = concat_spec s.
+  Proof. unfold concat_tree, concat_spec. cbn. rewrite map_map. auto. Qed.
+  Lemma ready_concat_tree s : InvS s -> forallb (amem (st_db K s)) (direct_refs (st_uid K s) (concat_tree K s)) = true.
+  Proof.
+    intros I. unfold concat_tree. cbn. rewrite forallb_flat_map. apply forallb_forall. intros t Hin.
+    apply in_map_iff in Hin. destruct Hin as (l & <- & Hl). cbn. rewrite (iv_inputs _ I); auto.
+  Qed.
+
+  Definition tf_tree (s : state) (c : string) : sqlt :=
+    match aget (st_cache K s) (named (tfname c)) with
+    | Some h => h_src K h
+    | None => Cte (tfname c) 0 [concat_tree K s]
+    end.
+
+  Lemma resolve_tf_trees s regs cols :
+    r_trees (fold_right (fun x acc => r_app (resolve K keqb s regs x) acc) r_nil (map RTfOrInline cols)) = map (tf_tree s) cols.
+  Proof.
+    induction cols as [|c r IH]; cbn; auto. rewrite IH. f_equal. unfold tf_tree.
+    destruct (aget (st_cache K s) (named (tfname c))); auto.
+  Qed.
+
+  Lemma tf_tree_ok St s c :
+    InvS s -> NamedOKg St s ->
+    denote (st_db K s) (tf_tree s c) = tf_spec s c /\
+    forallb (amem (st_db K s)) (direct_refs (st_uid K s) (tf_tree s c)) = true.
+  Proof.
+    intros I N. unfold tf_tree, tf_spec, lookup_of.
+    destruct (aget (st_cache K s) (named (tfname c))) eqn:E.
+    - destruct (nk_tf _ _ N _ _ E) as [(t & a & b & d & e & f & g)|(l & a & b & d & e)].
+      + rewrite a, d. cbn. rewrite b, <- d, f. auto.
+      + rewrite a, b. cbn. rewrite e. auto.
+    - split.
+      + change (denote (st_db K s) (Cte (tfname c) 0 [concat_tree K s]))
+          with (derive (tfname c) 0 [denote (st_db K s) (concat_tree K s)]).
+        rewrite denote_concat_tree. auto.
+      + change (direct_refs (st_uid K s) (Cte (tfname c) 0 [concat_tree K s]))
+          with (direct_refs (st_uid K s) (concat_tree K s) ++ []).
+        rewrite app_nil_r. apply ready_concat_tree; auto.
+  Qed.
+
+  Definition cwtf_tree (s : state) : sqlt := Cte CWTF 0 (concat_tree K s :: map (tf_tree s) (st_tfcols K s)).
+
+  Lemma cwtf_tree_ok St s :
+    InvS s -> NamedOKg St s ->
+    denote (st_db K s) (cwtf_tree s) = cwtf_spec s /\
+    forallb (amem (st_db K s)) (direct_refs (st_uid K s) (cwtf_tree s)) = true.
+  Proof.
+    intros I N. unfold cwtf_tree, cwtf_spec. split.
+    - cbn [Cache.denote map]. fold (denote (st_db K s)). rewrite denote_concat_tree. f_equal. f_equal. rewrite map_map.
+      apply map_ext. intros c. apply (tf_tree_ok St s c I N).
+    - cbn [Cache.direct_refs flat_map]. rewrite forallb_app. rewrite (ready_concat_tree s I). cbn.
+      rewrite forallb_flat_map. apply forallb_forall. intros t Hin. apply in_map_iff in Hin. destruct Hin as (c & <- & _).
+      apply (tf_tree_ok St s c I N).
+  Qed.
+
+  Lemma resolve_cwtf s regs :
+    the_tree CWTF 0 (resolve_all K keqb s regs (RConcatInline :: map RTfOrInline (st_tfcols K s))) = cwtf_tree s.
+  Proof. unfold the_tree, resolve_all, cwtf_tree. cbn. rewrite resolve_tf_trees. auto. Qed.
+  (* ---------------------------------------------------------------- one instruction, named invariant *)
+  Definition iguard (s : state) (i : instr) : Prop :=
+    match i with
+    | INamedOrExec n p ins _ =>
+        (n = CWTF /\ p = 0 /\ ins = RConcatInline :: map RTfOrInline (st_tfcols K s)) \/
+        (exists c, n = tfname c /\ p = 0 /\ ins = [RConcat])
+    | IExec n _ _ _ _ => is_named_name n = false
+    | IRegisterTF c _ =>
+        fx77 (st_fix K s) = true \/ aget (st_cache K s) (named CWTF) = None \/
+        amem (st_db K s) (PL (LUid (tfname c) (st_luid K s))) = true \/ ~ In c (st_tfcols K s)
+    | _ => True
+    end.
+
+  Lemma named_concat_absent St s : NamedOKg St s -> aget (st_cache K s) (named CONCAT) = None.
+  Proof.
+    intros N. destruct (aget (st_cache K s) (named CONCAT)) eqn:E; auto.
+    destruct (nk_keys _ _ N _ _ E) as [H|[c H]]; exfalso; [apply cwtf_not_concat|apply (tf_not_concat c)]; congruence.
+  Qed.
+  Lemma not_named_absent St s n : NamedOKg St s -> is_named_name n = false -> aget (st_cache K s) (named n) = None.
+  Proof.
+    intros N Hn. destruct (not_named_neq n Hn) as (a & b & c). destruct (aget (st_cache K s) (named n)) eqn:E; auto.
+    destruct (nk_keys _ _ N _ _ E) as [H|[c0 H]]; exfalso; [apply a | apply (c c0)]; congruence.
+  Qed.
+
+  Lemma invalidate_cache_nil s : st_cache K (invalidate K keqb s) = [].
+  Proof. unfold invalidate. destruct (st_cache K s) eqn:E; auto. Qed.
+
+  Lemma NamedOK_nil St s : st_cache K s = [] -> NamedOKg St s.
+  Proof. intros E. constructor; intros; rewrite E in *; discriminate. Qed.
+
+  Lemma delete_fold_named St keys : forall s, InvS s -> Sound s -> NamedOKg St s ->
+    NamedOKg St (fold_left (delete_step K keqb) keys s).
+  Proof.
+    induction keys as [|k r IH]; cbn; intros s I Hs N; auto.
+    apply IH; [apply delete_step_InvS; auto | apply delete_step_sound; auto |].
+    unfold delete_step. destruct (aget (st_cache K s) k) eqn:E; auto.
+    destruct (h_cbs K h && pname_eqb k (h_phys K h)); auto.
+    apply NamedOK_drop; auto. eapply iv_cache_cbs; eauto.
+  Qed.
+
+  Lemma grows_leaves_denote s s' t : grows s s' -> denote (st_db K s') t = denote (st_db K s) t.
+  Proof. intros [H _]. symmetry. apply denote_same_leaves. auto. Qed.
+
+  (* the tree compute_tf_table builds *)
+  Lemma tf_compute_tree_ok s regs c :
+    InvS s -> NamedOK s ->
+    let T := the_tree (tfname c) 0 (resolve_all K keqb s regs [RConcat]) in
+    name_of T = tfname c /\ denote (st_db K s) T = derive (tfname c) 0 [concat_spec s] /\
+    forallb (amem (st_db K s)) (direct_refs (st_uid K s) T) = true.
+  Proof.
+    intros I N. unfold the_tree, resolve_all. cbn [fold_right]. unfold resolve.
+    rewrite (named_concat_absent _ s N).
+    destruct (aget (st_cache K s) (named CWTF)) eqn:E.
+    - destruct (nk_cwtf _ _ N _ E) as (v & (t & a & b & d & e & f & g) & Hv). specialize (Hv Logic.I). rewrite Hv in g.
+      cbn [r_app r_trees r_nil app]. rewrite a. split; [reflexivity|]. split.
+      + cbn [Cache.denote map]. fold (denote (st_db K s)). rewrite g. unfold cwtf_spec.
+        rewrite (derive_other CWTF) by apply cwtf_not_concat. rewrite derive_alias. auto.
+      + cbn [Cache.direct_refs flat_map app forallb]. rewrite b, <- d, f. auto.
+    - cbn [r_app r_trees r_nil r_tree app]. split; [reflexivity|]. split.
+      + change (denote (st_db K s) (Cte (tfname c) 0 [concat_tree K s]))
+          with (derive (tfname c) 0 [denote (st_db K s) (concat_tree K s)]).
+        rewrite denote_concat_tree. auto.
+      + change (direct_refs (st_uid K s) (Cte (tfname c) 0 [concat_tree K s]))
+          with (direct_refs (st_uid K s) (concat_tree K s) ++ []).
+        rewrite app_nil_r. apply ready_concat_tree; auto.
+  Qed.
+
+  Lemma step_instr_named s regs tr i :
+    plain i -> iguard s i -> InvS s -> Sound s -> NamedOK s -> regs_ok regs ->
+    NamedOK (fst (fst (step_instr K keqb hash (s, regs, tr) i))).
+  Proof.
+    intros Hp Hg I Hs N Hr.
+    destruct i; cbn -[exec_pipeline invalidate delete_tables evict_cwtf drop_handle resolve_all] in *; try contradiction.
+    - (* INamedOrExec *)
+      destruct (aget (st_cache K s) (named n)) eqn:E; cbn -[exec_pipeline resolve_all]; [exact N|].
+      set (r := resolve_all K keqb s regs ins).
+      pose proof (exec_pipeline_spec s n (the_tree n p r) (r_aliases r) (r_inline r ++ mids) true I Hs eq_refl) as H.
+      destruct Hg as [(-> & -> & ->)|(c & -> & -> & ->)].
+      + (* concat_with_tf *)
+        unfold r in *. rewrite resolve_cwtf in *.
+        destruct (cwtf_tree_ok _ s I N) as [Hd Hrd].
+        pose proof (exec_result s CWTF (cwtf_tree s) (r_aliases (resolve_all K keqb s regs (RConcatInline :: map RTfOrInline (st_tfcols K s))))
+                                (r_inline (resolve_all K keqb s regs (RConcatInline :: map RTfOrInline (st_tfcols K s))) ++ mids) I Hs eq_refl E Hrd) as R.
+        destruct (exec_pipeline K keqb hash s CWTF (cwtf_tree s) _ _ true) as [[s1 h] ev].
+        cbn in H, R |- *. destruct H as (I1 & S1 & Hh & Hc & Hgr & Hpl). destruct R as (r1 & r2 & r3 & r4 & r5).
+        destruct Hc as (c1 & c2 & c3 & c4 & c5 & c6 & c7 & c8).
+        assert (N1 : NamedOK s1) by (apply (NamedOK_frame True s s1); auto; apply grows_extends; auto).
+        apply (NamedOK_set_cwtf True s1 h N1).
+        exists (cwtf_tree s). rewrite c4. repeat (split; auto).
+        rewrite (grows_leaves_denote s s1) by auto. rewrite Hd. symmetry.
+        apply cwtf_spec_frame; auto.
+        * apply concat_spec_frame; auto. destruct (grows_extends _ _ Hgr); auto.
+        * apply (lookup_of_frame True); auto. destruct (grows_extends _ _ Hgr); auto.
+      + (* compute_tf_table *)
+        destruct (tf_compute_tree_ok s regs c I N) as (Hn & Hd & Hrd). fold r in Hn, Hd, Hrd.
+        pose proof (exec_result s (tfname c) (the_tree (tfname c) 0 r) (r_aliases r) (r_inline r ++ mids) I Hs Hn E Hrd) as R.
+        destruct (exec_pipeline K keqb hash s (tfname c) (the_tree (tfname c) 0 r) _ _ true) as [[s1 h] ev].
+        cbn in H, R |- *. destruct H as (I1 & S1 & Hh & Hc & Hgr & Hpl). destruct R as (r1 & r2 & r3 & r4 & r5).
+        destruct Hc as (c1 & c2 & c3 & c4 & c5 & c6 & c7 & c8).
+        assert (N1 : NamedOK s1) by (apply (NamedOK_frame True s s1); auto; apply grows_extends; auto).
+        assert (C1 : concat_spec s1 = concat_spec s).
+        { apply concat_spec_frame; auto. destruct (grows_extends _ _ Hgr); auto. }
+        assert (Hok : hashed_ok s1 h (tfname c) (derive (tfname c) 0 [concat_spec s1])).
+        { exists (the_tree (tfname c) 0 r). rewrite c4, C1. repeat (split; auto).
+          rewrite (grows_leaves_denote s s1) by auto. exact Hd. }
+        destruct (NamedOK_set_tf True s1 c h N1 (or_introl Hok)) as [_ Hstrict]. apply Hstrict.
+        intros c' Hin. destruct (string_dec c' c) as [->|Hne]; [|apply lookup_of_set_other; auto].
+        transitivity (@None prov).
+        * unfold lookup_of. cbn [st_cache set_cache]. rewrite aget_aset_same, r2. reflexivity.
+        * unfold lookup_of. unfold Cache.named. rewrite Hpl. fold (named (tfname c)). rewrite E. reflexivity.
+    - (* IExec *)
+      set (r := resolve_all K keqb s regs ins).
+      pose proof (exec_pipeline_spec s n (the_tree n p r) (r_aliases r) (r_inline r ++ mids) use_cache I Hs eq_refl) as H.
+      destruct (exec_pipeline K keqb hash s n (the_tree n p r) (r_aliases r) (r_inline r ++ mids) use_cache) as [[s1 h] ev].
+      cbn in H |- *. destruct H as (I1 & S1 & Hh & Hc & Hgr & Hpl).
+      destruct Hc as (c1 & c2 & c3 & c4 & c5 & c6 & c7 & c8).
+      apply (NamedOK_frame True s s1); auto. apply grows_extends; auto.
+    - (* IDrop *)
+      destruct (nth_error regs i) eqn:E; cbn; [|exact N].
+      assert (Hh : cbs_hashed h). { unfold regs_ok in Hr. rewrite Forall_forall in Hr. apply Hr. eapply nth_error_In; eauto. }
+      destruct (drop_handle K keqb s h) as [s1 ev] eqn:Ed. cbn.
+      assert (s1 = fst (drop_handle K keqb s h)) by (rewrite Ed; auto). subst s1. apply NamedOK_drop; auto.
+    - (* IRegisterTF *)
+      destruct (amem (st_db K s) (PL (LUid (tfname c) (st_luid K s)))) eqn:Em; cbn -[evict_cwtf]; [exact N|].
+      set (l := LUid (tfname c) (st_luid K s)) in *.
+      set (h := {| h_templ := tfname c; h_phys := PL l; h_src := Leaf l; h_cbs := false |}).
+      set (e := {| e_prov := PLookup c ver; e_origin := Caller |}).
+      set (s1 := set_db K s (aset (st_db K s) (PL l) e)).
+      assert (I1 : InvS s1).
+      { pose proof (InvS_register_leaf s l e (st_ctr K s) I Em (le_n _)) as H.
+        assert (Hl : forall b u, l = LUid b u -> u < st_ctr K s).
+        { intros b u E. inversion E; subst. apply (iv_luid _ I). }
+        specialize (H Hl). destruct s; exact H. }
+      assert (S1 : Sound s1) by (unfold Sound, s1; cbn; apply sound_register_leaf; auto).
+      assert (Hst : leaves_stable s s1).
+      { intros l0 Hm. unfold s1. cbn. apply aget_aset_other. intros X. inversion X; subst. rewrite Hm in Em. discriminate. }
+      assert (N1 : NamedOK s1).
+      { apply (NamedOK_frame True s s1); auto. split; auto. intros p0 Hp0. unfold s1. cbn. rewrite amem_aset, Hp0. apply orb_true_r. }
+      assert (Hlk : lookup_ok s1 h).
+      { exists l. repeat (split; auto). unfold s1. cbn. rewrite amem_aset, pname_eqb_refl. auto. }
+      destruct (NamedOK_set_tf True s1 c h N1 (or_intror Hlk)) as [Hweak Hstrict].
+      set (s2 := set_cache K s1 (aset (st_cache K s1) (named (tfname c)) h)) in *.
+      assert (I2 : InvS s2) by (apply InvS_set_named; auto; intros X; discriminate).
+      assert (S2 : Sound s2) by (eapply Sound_uid; [| |exact S1]; auto).
+      assert (Hcw : aget (st_cache K s2) (named CWTF) = aget (st_cache K s) (named CWTF)).
+      { unfold s2, s1. cbn. apply aget_aset_other. intros X. symmetry in X. apply named_tf_neq_cwtf in X. auto. }
+      destruct (fx77 (st_fix K s)) eqn:Efx.
+      + (* repaired tree: the stale concat_with_tf is dropped *)
+        change (NamedOK (evict_cwtf K keqb s2)). unfold evict_cwtf. destruct (aget (st_cache K s2) (named CWTF)) eqn:E2; [|apply (weak_absent False); auto].
+        destruct (nk_cwtf _ _ Hweak _ E2) as (v & (t & a & b & d & e0 & f & g) & _).
+        rewrite e0. apply (weak_absent False).
+        * apply NamedOK_drop; auto. eapply iv_cache_cbs; eauto.
+        * rewrite drop_handle_fst, e0.
+          change (aget (cache_remove_phys K keqb (st_cache K s2) (h_phys K h0)) (named CWTF) = None).
+          unfold cache_remove_phys. rewrite aget_filter by apply (iv_nodup _ I2).
+          rewrite E2. cbv beta. cbn [snd]. rewrite pname_eqb_refl. reflexivity.
+      + change (NamedOK s2). destruct Hg as [X|[X|[X|X]]]; try discriminate.
+        * apply (weak_absent False); auto. rewrite Hcw. auto.
+        * apply Hstrict. intros c' Hin. apply lookup_of_set_other. intros ->. auto.
+    - (* IRegisterRecords *)
+      set (l := LUid base (st_ctr K s)).
+      set (e := {| e_prov := PRecords (st_ctr K s); e_origin := Caller |}).
+      assert (Em : amem (st_db K s) (PL l) = false).
+      { destruct (amem (st_db K s) (PL l)) eqn:Em; auto. apply (iv_fresh _ I) in Em. lia. }
+      apply (NamedOK_frame True s); auto; cbn; auto. split.
+      + intros l0 Hm. cbn. apply aget_aset_other. intros X. inversion X; subst. rewrite Hm in Em. discriminate.
+      + intros p0 Hp0. cbn. rewrite amem_aset, Hp0. apply orb_true_r.
+    - (* ISetParams *)
+      constructor; [apply (nk_keys _ _ N)|apply (nk_cwtf _ _ N)|apply (nk_tf _ _ N)].
+    - (* IInvalidate *)
+      apply NamedOK_nil. apply invalidate_cache_nil.
+    - (* IDeleteTables *)
+      unfold delete_tables. apply delete_fold_named; auto.
+  Qed.
+  (* ---------------------------------------------------------------- programs, operations, histories *)
+  Definition sguard (tfcols : list string) (i : instr) : Prop :=
+    match i with
+    | INamedOrExec n p ins _ =>
+        (n = CWTF /\ p = 0 /\ ins = RConcatInline :: map RTfOrInline tfcols) \/
+        (exists c, n = tfname c /\ p = 0 /\ ins = [RConcat])
+    | IExec n _ _ _ _ => is_named_name n = false
+    | IRegisterTF _ _ => False
+    | _ => True
+    end.
+  Lemma sguard_iguard s i : sguard (st_tfcols K s) i -> iguard s i.
+  Proof. destruct i; cbn; auto; contradiction. Qed.
+
+  Definition Inv2 (s : state) : Prop := InvS s /\ Sound s /\ NamedOK s.
+
+  Lemma run_prog_named prog : forall s regs tr,
+    Forall plain prog -> Forall (sguard (st_tfcols K s)) prog -> Inv2 s -> regs_ok regs ->
+    NamedOK (fst (fst (fold_left (step_instr K keqb hash) prog (s, regs, tr)))).
+  Proof.
+    induction prog as [|i r IH]; cbn -[step_instr]; intros s regs tr Hp Hg (I & Hs & N) Hr; auto.
+    inversion Hp; subst. inversion Hg; subst.
+    pose proof (step_instr_inv s regs tr i H1 I Hs Hr) as H.
+    pose proof (step_instr_named s regs tr i H1 (sguard_iguard _ _ H3) I Hs N Hr) as HN.
+    destruct (step_instr K keqb hash (s, regs, tr) i) as [[s1 regs1] tr1]. cbn in H, HN.
+    destruct H as (I1 & S1 & R1 & u1 & i1 & t1 & f1).
+    apply IH; [assumption | rewrite t1; assumption | split; [|split]; assumption | assumption].
+  Qed.
+
+  Lemma prog_sguard s o :
+    op_ok_hashed o = true -> (forall v, o <> ChangeInputInvalidate v) -> (forall c v, o <> RegisterTF c v) ->
+    Forall (sguard (st_tfcols K s)) (prog_of_op K s o).
+  Proof.
+    intros Hok H1 H2.
+    destruct o; cbn in Hok; try discriminate; cbn -[is_named_name]; unfold predict_prog, cwtf_instr;
+      repeat (apply Forall_cons || apply Forall_nil || apply Forall_app || split);
+      cbn -[is_named_name]; auto; try (vm_compute; reflexivity).
+    - right. eauto.
+    - exfalso. eapply H2. reflexivity.
+    - destruct flag; vm_compute; reflexivity.
+  Qed.
+
+  Lemma step_inv2 s o :
+    op_ok K keqb s o = true -> Inv2 s -> Inv2 (step K keqb hash s o).
+  Proof.
+    intros Hok (I & Hs & N).
+    assert (Hh : op_ok_hashed o = true).
+    { unfold op_ok in Hok. unfold op_ok_hashed. apply andb_true_iff in Hok. destruct Hok as [Hok _]. exact Hok. }
+    destruct (step_inv s o Hh (conj I Hs)) as ([I' Hs'] & _).
+    split; [auto|split; [auto|]].
+    unfold step, run_op, run_prog.
+    destruct o; try (cbn in Hh; discriminate);
+      try (apply run_prog_named; [apply prog_plain; auto; intros; discriminate
+                                 | apply prog_sguard; auto; intros; discriminate
+                                 | split; [|split]; assumption | constructor]; fail).
+    - (* RegisterTF *)
+      cbn -[step_instr]. apply step_instr_named; auto; [exact Logic.I| |constructor].
+      cbn. unfold op_ok in Hok. apply andb_true_iff in Hok. destruct Hok as [_ Hr]. cbn in Hr.
+      apply negb_true_iff in Hr. apply andb_false_iff in Hr. destruct Hr as [Hr|Hr].
+      + apply andb_false_iff in Hr. destruct Hr as [Hr|Hr].
+        * apply andb_false_iff in Hr. destruct Hr as [Hr|Hr].
+          -- left. apply negb_false_iff in Hr. auto.
+          -- right. left. unfold Cache.amem in Hr. destruct (aget (st_cache K s) (named CWTF)); [discriminate|auto].
+        * right. right. left. apply negb_false_iff in Hr. auto.
+      + right. right. right. intros Hin. assert (X : existsb (String.eqb c) (st_tfcols K s) = true).
+        { apply existsb_exists. exists c. split; auto. apply String.eqb_refl. }
+        rewrite X in Hr. discriminate.
+    - (* ChangeInputInvalidate *)
+      apply NamedOK_nil. cbn -[invalidate]. apply invalidate_cache_nil.
+  Qed.
+
+  Lemma run_inv2 ops : forall s, hist_ok K keqb hash s ops = true -> Inv2 s -> Inv2 (run K keqb hash s ops).
+  Proof.
+    induction ops as [|o r IH]; cbn; intros s Hok Hi; auto.
+    apply andb_true_iff in Hok. destruct Hok as [H1 H2]. apply IH; auto. apply step_inv2; auto.
+  Qed.
+
+  Lemma hist_ok_hashed ops : forall s, hist_ok K keqb hash s ops = true -> forallb op_ok_hashed ops = true.
+  Proof.
+    induction ops as [|o r IH]; cbn; intros s Hok; auto.
+    apply andb_true_iff in Hok. destruct Hok as [H1 H2]. rewrite (IH _ H2), andb_true_r.
+    unfold op_ok in H1. apply andb_true_iff in H1. destruct H1 as [H1 _]. exact H1.
+  Qed.
+
+  Lemma init_inv2 inputs ver tfcols params uid luid fx :
+    inputs_plain inputs -> Inv2 (init_state K inputs ver tfcols params uid luid fx).
+  Proof.
+    intros Hp. destruct (init_inv inputs ver tfcols params uid luid fx Hp) as [I Hs].
+    split; [auto|split; [auto|]]. apply NamedOK_nil. reflexivity.
+  Qed.
+  (* ---------------------------------------------------------------- predict() in an invariant state *)
+  Lemma cwtf_spec_set_cwtf s h : cwtf_spec (set_cache K s (aset (st_cache K s) (named CWTF) h)) = cwtf_spec s.
+  Proof.
+    apply cwtf_spec_frame; auto. intros c. unfold lookup_of. cbn. rewrite aget_aset_other; auto. apply named_tf_neq_cwtf.
+  Qed.
+
+  Lemma cwtf_step s regs tr :
+    Inv2 s -> regs_ok regs ->
+    exists s1 h0 tr1,
+      step_instr K keqb hash (s, regs, tr) (cwtf_instr K s) = (s1, regs ++ [h0], tr1) /\
+      Inv2 s1 /\ regs_ok (regs ++ [h0]) /\ hashed_ok s1 h0 CWTF (cwtf_spec s) /\
+      st_uid K s1 = st_uid K s /\ st_params K s1 = st_params K s /\ leaves_stable s s1 /\
+      (forall p, amem (st_db K s) p = true -> amem (st_db K s1) p = true).
+  Proof.
+    intros (I & Hs & N) Hr.
+    pose proof (step_instr_inv s regs tr (cwtf_instr K s) Logic.I I Hs Hr) as H1.
+    pose proof (step_instr_named s regs tr (cwtf_instr K s) Logic.I (or_introl (conj eq_refl (conj eq_refl eq_refl))) I Hs N Hr) as H2.
+    unfold cwtf_instr in *. cbn -[exec_pipeline resolve_all] in *.
+    destruct (aget (st_cache K s) (named CWTF)) eqn:E.
+    - cbn in *. exists s, h, (tr ++ [Hit CWTF (pbase K (h_phys K h))]). split; [reflexivity|].
+      destruct H1 as (a & b & c & _). split; [split; [|split]; auto|]. split; [auto|].
+      destruct (nk_cwtf _ _ N _ E) as (v & Hv & Hst). rewrite (Hst Logic.I) in Hv.
+      repeat (split; auto).
+    - rewrite resolve_cwtf in *.
+      set (al := r_aliases (resolve_all K keqb s regs (RConcatInline :: map RTfOrInline (st_tfcols K s)))) in *.
+      set (inl := r_inline (resolve_all K keqb s regs (RConcatInline :: map RTfOrInline (st_tfcols K s))) ++ []) in *.
+      pose proof (exec_pipeline_spec s CWTF (cwtf_tree s) al inl true I Hs eq_refl) as H.
+      destruct (exec_pipeline K keqb hash s CWTF (cwtf_tree s) al inl true) as [[s1 h] ev].
+      cbn in H, H1, H2 |- *. destruct H as (I1 & S1 & Hh & Hc & Hgr & Hpl).
+      destruct Hc as (c1 & c2 & c3 & c4 & c5 & c6 & c7 & c8).
+      exists (set_cache K s1 (aset (st_cache K s1) (named CWTF) h)), h, (tr ++ r_events (resolve_all K keqb s regs (RConcatInline :: map RTfOrInline (st_tfcols K s))) ++ ev).
+      split; [reflexivity|]. destruct H1 as (a & b & c & _). split; [split; [|split]; auto|]. split; [auto|].
+      assert (W : cwtf_spec (set_cache K s1 (aset (st_cache K s1) (named CWTF) h)) = cwtf_spec s).
+      { rewrite cwtf_spec_set_cwtf. apply cwtf_spec_frame; auto.
+        - apply concat_spec_frame; auto. destruct (grows_extends _ _ Hgr); auto.
+        - apply (lookup_of_frame True); auto. destruct (grows_extends _ _ Hgr); auto. }
+      split.
+      + destruct (nk_cwtf _ _ H2 h) as (v & Hv & Hst); [cbn; apply aget_aset_same|].
+        rewrite (Hst Logic.I), W in Hv. exact Hv.
+      + cbn. destruct (grows_extends _ _ Hgr). repeat (split; auto).
+  Qed.
+
+  Lemma iexec_step s regs tr n p ins mids :
+    Inv2 s -> regs_ok regs -> is_named_name n = false ->
+    forallb (amem (st_db K s)) (direct_refs (st_uid K s) (the_tree n p (resolve_all K keqb s regs ins))) = true ->
+    exists s1 h tr1,
+      step_instr K keqb hash (s, regs, tr) (IExec n p ins mids true) = (s1, regs ++ [h], tr1) /\
+      Inv2 s1 /\ regs_ok (regs ++ [h]) /\
+      h_src K h = Mat (the_tree n p (resolve_all K keqb s regs ins)) /\
+      h_phys K h = PH n (hash (the_tree n p (resolve_all K keqb s regs ins)) (st_uid K s)) /\
+      h_cbs K h = true /\ amem (st_db K s1) (h_phys K h) = true /\
+      content (st_db K s1) (h_phys K h) = denote (st_db K s1) (the_tree n p (resolve_all K keqb s regs ins)) /\
+      st_uid K s1 = st_uid K s /\ st_params K s1 = st_params K s /\ grows s s1.
+  Proof.
+    intros (I & Hs & N) Hr Hn Hrd.
+    pose proof (step_instr_inv s regs tr (IExec n p ins mids true) Logic.I I Hs Hr) as H1.
+    pose proof (step_instr_named s regs tr (IExec n p ins mids true) Logic.I Hn I Hs N Hr) as H2.
+    cbn -[exec_pipeline resolve_all] in *.
+    set (r := resolve_all K keqb s regs ins) in *.
+    pose proof (exec_pipeline_spec s n (the_tree n p r) (r_aliases r) (r_inline r ++ mids) true I Hs eq_refl) as H.
+    pose proof (exec_result s n (the_tree n p r) (r_aliases r) (r_inline r ++ mids) I Hs eq_refl (not_named_absent _ s n N Hn) Hrd) as R.
+    destruct (exec_pipeline K keqb hash s n (the_tree n p r) (r_aliases r) (r_inline r ++ mids) true) as [[s1 h] ev].
+    cbn in H, H1, H2, R |- *. destruct H as (I1 & S1 & Hh & Hc & Hgr & Hpl).
+    destruct Hc as (c1 & c2 & c3 & c4 & c5 & c6 & c7 & c8). destruct R as (r1 & r2 & r3 & r4 & r5).
+    exists s1, h, (tr ++ r_events r ++ ev). split; [reflexivity|].
+    destruct H1 as (a & b & c & _). split; [split; [|split]; auto|]. repeat (split; auto).
+  Qed.
+
+  Lemma nth_error_app_last {A} (l : list A) x : nth_error (l ++ [x]) (List.length l) = Some x.
+  Proof. induction l; cbn; auto. Qed.
+
+  Theorem predict_correct s : Inv2 s -> result_prov K keqb hash s Predict = predict_spec s.
+  Proof.
+    intros Hi. unfold result_prov, run_op, run_prog.
+    change (prog_of_op K s Predict) with
+      [cwtf_instr K s; IExec BLOCKED 0 [RReg 0] [] true;
+       IExec PREDICT (st_params K s) [RReg 1; RReg 0] ["blocked_with_cols"; CVV; MWP] true; IDrop 1].
+    cbn [fold_left].
+    (* 1: __splink__df_concat_with_tf *)
+    destruct (cwtf_step s [] [] Hi (Forall_nil _)) as (s1 & h0 & tr1 & E1 & Hi1 & Hr1 & Hh0 & u1 & p1 & _ & _).
+    rewrite E1. cbn [app] in *.
+    destruct Hh0 as (t0 & a0 & b0 & d0 & e0 & f0 & g0).
+    (* 2: __splink__blocked_id_pairs *)
+    assert (Hrd1 : forallb (amem (st_db K s1)) (direct_refs (st_uid K s1) (the_tree BLOCKED 0 (resolve_all K keqb s1 [h0] [RReg 0]))) = true).
+    { cbn. rewrite a0. cbn. rewrite b0, <- d0, f0. auto. }
+    destruct (iexec_step s1 [h0] tr1 BLOCKED 0 [RReg 0] [] Hi1 Hr1 ltac:(vm_compute; reflexivity) Hrd1)
+      as (s2 & h1 & tr2 & E2 & Hi2 & Hr2 & a1 & d1 & e1 & f1 & g1 & u2 & p2 & Hg2).
+    rewrite E2. cbn [app] in *.
+    assert (T1 : the_tree BLOCKED 0 (resolve_all K keqb s1 [h0] [RReg 0]) = Cte BLOCKED 0 [Mat t0]).
+    { cbn. rewrite a0. reflexivity. }
+    rewrite T1 in *.
+    (* 3: __splink__df_predict *)
+    assert (T2 : the_tree PREDICT (st_params K s) (resolve_all K keqb s2 [h0; h1] [RReg 1; RReg 0])
+                 = Cte PREDICT (st_params K s) [Mat (Cte BLOCKED 0 [Mat t0]); Mat t0]).
+    { cbn. rewrite a0, a1. reflexivity. }
+    assert (Hm0 : amem (st_db K s2) (h_phys K h0) = true) by (destruct Hg2 as [_ M]; apply M; auto).
+    assert (Hrd2 : forallb (amem (st_db K s2)) (direct_refs (st_uid K s2)
+                     (the_tree PREDICT (st_params K s) (resolve_all K keqb s2 [h0; h1] [RReg 1; RReg 0]))) = true).
+    { rewrite T2. cbn. rewrite u2. rewrite <- d1, f1. rewrite b0, <- d0, Hm0. auto. }
+    destruct (iexec_step s2 [h0; h1] tr2 PREDICT (st_params K s) [RReg 1; RReg 0] ["blocked_with_cols"; CVV; MWP] Hi2 Hr2
+                         ltac:(vm_compute; reflexivity) Hrd2)
+      as (s3 & h2 & tr3 & E3 & Hi3 & Hr3 & a2 & d2 & e2 & f2 & g2 & u3 & p3 & Hg3).
+    rewrite E3. cbn [app].
+    (* 4: drop the blocked pairs *)
+    cbn -[drop_handle]. rewrite (surjective_pairing (drop_handle K keqb s3 h1)). cbn -[drop_handle].
+    rewrite drop_handle_fst, e1. cbn.
+    rewrite content_aremove_other.
+    - rewrite g2, T2. cbn [Cache.denote map]. fold (denote (st_db K s3)).
+      assert (D0 : denote (st_db K s3) t0 = cwtf_spec s).
+      { rewrite (grows_leaves_denote s2 s3 t0 Hg3), (grows_leaves_denote s1 s2 t0 Hg2). exact g0. }
+      rewrite D0. unfold predict_spec. reflexivity.
+    - rewrite d2, d1. intros X. inversion X.
+  Qed.
+  (* ================================================================ the C07 theorems *)
+  (* what predict() may depend on: the rows of the input tables, the model (tf columns, parameters)
+     and the registered lookups *)
+  Definition obs (s : state) : list prov * list string * list (option prov) * nat :=
+    (map (fun l => content (st_db K s) (PL l)) (st_inputs K s), st_tfcols K s,
+     map (lookup_of s) (st_tfcols K s), st_params K s).
+
+  Lemma predict_spec_obs s1 s2 : obs s1 = obs s2 -> predict_spec s1 = predict_spec s2.
+  Proof.
+    unfold obs. intros H. injection H; intros Hp Hl Ht Hc.
+    assert (C : concat_spec s1 = concat_spec s2) by (unfold concat_spec; rewrite Hc; auto).
+    unfold predict_spec, cwtf_spec. rewrite Hp, C, <- Ht. clear Hp Hc H.
+    assert (M : map (tf_spec s1) (st_tfcols K s1) = map (tf_spec s2) (st_tfcols K s1)).
+    { rewrite <- Ht in Hl. clear Ht. induction (st_tfcols K s1) as [|c r IH]; cbn in *; auto.
+      inversion Hl. rewrite IH by auto. unfold tf_spec. rewrite H0, C. auto. }
+    rewrite M. auto.
+  Qed.
+
+  Theorem predict_depends_only_on_obs
+          inputs1 ver1 tf1 p1 uid1 luid1 fx1 ops1 inputs2 ver2 tf2 p2 uid2 luid2 fx2 ops2 :
+    inputs_plain inputs1 -> inputs_plain inputs2 ->
+    let i1 := init_state K inputs1 ver1 tf1 p1 uid1 luid1 fx1 in
+    let i2 := init_state K inputs2 ver2 tf2 p2 uid2 luid2 fx2 in
+    hist_ok K keqb hash i1 ops1 = true -> hist_ok K keqb hash i2 ops2 = true ->
+    obs (run K keqb hash i1 ops1) = obs (run K keqb hash i2 ops2) ->
+    result_prov K keqb hash (run K keqb hash i1 ops1) Predict =
+    result_prov K keqb hash (run K keqb hash i2 ops2) Predict.
+  Proof.
+    intros P1 P2 i1 i2 H1 H2 Ho.
+    rewrite !predict_correct.
+    - apply predict_spec_obs. auto.
+    - apply run_inv2; auto. apply init_inv2; auto.
+    - apply run_inv2; auto. apply init_inv2; auto.
+  Qed.
+
+  (* a fresh linker: a new DatabaseAPI, then the lookups registered one by one *)
+  Definition registrations (lks : list (string * nat)) : list op :=
+    map (fun cv => RegisterTF (fst cv) (snd cv)) lks.
+
+  Lemma evict_absent s : aget (st_cache K s) (named CWTF) = None -> evict_cwtf K keqb s = s.
+  Proof. intros H. unfold evict_cwtf. rewrite H. auto. Qed.
+
+  Lemma registrations_ok lks : forall s,
+    aget (st_cache K s) (named CWTF) = None -> hist_ok K keqb hash s (registrations lks) = true.
+  Proof.
+    induction lks as [|[c v] r IH]; cbn -[step]; intros s Ha; auto.
+    apply andb_true_iff. split.
+    - unfold op_ok, stale_cwtf_risk. cbn. unfold Cache.amem at 1. rewrite Ha. cbn. rewrite andb_false_r. auto.
+    - apply IH. unfold step, run_op, run_prog. cbn -[evict_cwtf].
+      destruct (amem (st_db K s) (PL (LUid (tfname c) (st_luid K s)))); cbn -[evict_cwtf]; auto.
+      assert (X : aget (aset (st_cache K s) (named (tfname c))
+                             {| h_templ := tfname c; h_phys := PL (LUid (tfname c) (st_luid K s));
+                                h_src := Leaf (LUid (tfname c) (st_luid K s)); h_cbs := false |}) (named CWTF) = None).
+      { rewrite aget_aset_other; auto. intros X. symmetry in X. apply named_tf_neq_cwtf in X. auto. }
+      destruct (fx77 (st_fix K s)); cbn -[evict_cwtf]; [rewrite evict_absent; cbn; auto | auto].
+  Qed.
+
+  Theorem predict_equals_fresh inputs ver tfcols params uid luid fx ops ver' uid' luid' lks :
+    inputs_plain inputs ->
+    let i := init_state K inputs ver tfcols params uid luid fx in
+    hist_ok K keqb hash i ops = true ->
+    let s := run K keqb hash i ops in
+    let f := run K keqb hash (init_state K inputs ver' tfcols (st_params K s) uid' luid' fx) (registrations lks) in
+    obs f = obs s ->
+    result_prov K keqb hash s Predict = result_prov K keqb hash f Predict.
+  Proof.
+    intros P i H s f Ho.
+    apply predict_depends_only_on_obs; [exact P | exact P | exact H | apply registrations_ok; reflexivity | symmetry; exact Ho].
+  Qed.
+
+  (* ---------------------------------------------------------------- invalidate_cache reflects new data *)
+  Lemma hist_ok_app a : forall s b,
+    hist_ok K keqb hash s (a ++ b) = hist_ok K keqb hash s a && hist_ok K keqb hash (run K keqb hash s a) b.
+  Proof.
+    induction a as [|o r IH]; cbn; intros s b; auto. rewrite IH, andb_assoc. auto.
+  Qed.
+  Lemma run_app a b s : run K keqb hash s (a ++ b) = run K keqb hash (run K keqb hash s a) b.
+  Proof. unfold run. apply fold_left_app. Qed.
+
+  Lemma drop_handle_leaves s h l : cbs_hashed h ->
+    aget (st_db K (fst (drop_handle K keqb s h))) (PL l) = aget (st_db K s) (PL l).
+  Proof.
+    intros Hh. rewrite drop_handle_fst. destruct (h_cbs K h) eqn:Ec; auto. specialize (Hh Ec).
+    destruct (h_phys K h) eqn:Ep; [discriminate|]. cbn. apply aget_aremove_other. discriminate.
+  Qed.
+  Lemma delete_fold_leaves keys : forall s l, InvS s ->
+    aget (st_db K (fold_left (delete_step K keqb) keys s)) (PL l) = aget (st_db K s) (PL l).
+  Proof.
+    induction keys as [|k r IH]; cbn; intros s l I; auto.
+    rewrite IH by (apply delete_step_InvS; auto).
+    unfold delete_step. destruct (aget (st_cache K s) k) eqn:E; auto.
+    destruct (h_cbs K h && pname_eqb k (h_phys K h)); auto.
+    apply drop_handle_leaves. eapply iv_cache_cbs; eauto.
+  Qed.
+  Lemma invalidate_leaves s l : InvS s -> aget (st_db K (invalidate K keqb s)) (PL l) = aget (st_db K s) (PL l).
+  Proof.
+    intros I. unfold invalidate. destruct (st_cache K s) eqn:Ec; auto. cbn.
+    unfold delete_tables. rewrite delete_fold_leaves; [reflexivity|]. apply InvS_set_luid_ctr. auto.
+  Qed.
+
+  Lemma change_input_content ver ls : forall db l,
+    content (fold_left (fun d l0 => aset d (PL l0) {| e_prov := PInput (lbase l0) ver; e_origin := User |}) ls db) (PL l) =
+    if existsb (lname_eqb l) ls then PInput (lbase l) ver else content db (PL l).
+  Proof.
+    induction ls as [|a r IH]; cbn; intros db l; auto.
+    rewrite IH. destruct (existsb (lname_eqb l) r); [rewrite orb_true_r; auto|]. rewrite orb_false_r.
+    unfold Cache.content. rewrite aget_aset. cbn. destruct (lname_eqb a l) eqn:E.
+    - apply lname_eqb_spec in E. subst. rewrite lname_eqb_refl. auto.
+    - destruct (lname_eqb l a) eqn:E2; auto. apply lname_eqb_spec in E2. subst. rewrite lname_eqb_refl in E. discriminate.
+  Qed.
+
+  Lemma obs_after_change s0 v : InvS s0 ->
+    obs (step K keqb hash s0 (ChangeInputInvalidate v)) =
+    (map (fun l => PInput (lbase l) v) (st_inputs K s0), st_tfcols K s0, map (fun _ => None) (st_tfcols K s0), st_params K s0).
+  Proof.
+    intros I0.
+    set (X := set_db K s0 (fold_left (fun d l0 => aset d (PL l0) {| e_prov := PInput (lbase l0) v; e_origin := User |})
+                                     (st_inputs K s0) (st_db K s0))).
+    assert (Es : step K keqb hash s0 (ChangeInputInvalidate v) = invalidate K keqb X) by reflexivity.
+    rewrite Es. clear Es.
+    pose proof (InvS_change_input s0 v I0) as I1. fold X in I1.
+    pose proof (invalidate_fields X) as F. cbn -[invalidate X] in F. destruct F as (f1 & f2 & f3 & _).
+    unfold obs. rewrite f1, f2, f3. change (st_inputs K X) with (st_inputs K s0).
+    change (st_tfcols K X) with (st_tfcols K s0). change (st_params K X) with (st_params K s0).
+    assert (A1 : map (fun l => content (st_db K (invalidate K keqb X)) (PL l)) (st_inputs K s0) =
+                 map (fun l => PInput (lbase l) v) (st_inputs K s0)); [|
+    assert (A2 : map (lookup_of (invalidate K keqb X)) (st_tfcols K s0) = map (fun _ => None) (st_tfcols K s0)); [|
+    rewrite A1, A2; reflexivity]].
+    - apply map_ext_in. intros l Hl. unfold Cache.content. rewrite invalidate_leaves by auto.
+      change (st_db K X) with (fold_left (fun d l0 => aset d (PL l0) {| e_prov := PInput (lbase l0) v; e_origin := User |})
+                                         (st_inputs K s0) (st_db K s0)).
+      pose proof (change_input_content v (st_inputs K s0) (st_db K s0) l) as C. unfold Cache.content in C. rewrite C.
+      assert (Y : existsb (lname_eqb l) (st_inputs K s0) = true) by (apply existsb_exists; exists l; split; auto; apply lname_eqb_refl).
+      rewrite Y. reflexivity.
+    - apply map_ext. intros c. unfold lookup_of. rewrite invalidate_cache_nil. reflexivity.
+  Qed.
+
+  Lemma obs_init inputs v tfcols p uid luid fx :
+    obs (init_state K inputs v tfcols p uid luid fx) =
+    (map (fun l => PInput (lbase l) v) inputs, tfcols, map (fun _ => None) tfcols, p).
+  Proof.
+    unfold obs. cbn [st_inputs st_tfcols st_params st_db st_cache init_state].
+    assert (A1 : map (fun l => content (input_db K inputs v) (PL l)) inputs = map (fun l => PInput (lbase l) v) inputs); [|
+    assert (A2 : map (lookup_of (init_state K inputs v tfcols p uid luid fx)) tfcols = map (fun _ => None) tfcols); [|
+    rewrite A1, A2; reflexivity]].
+    - apply map_ext_in. intros l Hl. unfold Cache.content. rewrite input_db_leaf.
+      assert (Y : existsb (lname_eqb l) inputs = true) by (apply existsb_exists; exists l; split; auto; apply lname_eqb_refl).
+      rewrite Y. reflexivity.
+    - apply map_ext. intros c. reflexivity.
+  Qed.
+
+  Theorem invalidate_reflects_new_data inputs ver tfcols params uid luid fx ops v uid' luid' fx' :
+    inputs_plain inputs ->
+    let i := init_state K inputs ver tfcols params uid luid fx in
+    hist_ok K keqb hash i ops = true ->
+    let s := run K keqb hash i (ops ++ [ChangeInputInvalidate v]) in
+    result_prov K keqb hash s Predict =
+    result_prov K keqb hash (init_state K inputs v tfcols (st_params K s) uid' luid' fx') Predict.
+  Proof.
+    intros P i H s.
+    assert (Hok : hist_ok K keqb hash i (ops ++ [ChangeInputInvalidate v]) = true).
+    { rewrite hist_ok_app, H. cbn. reflexivity. }
+    rewrite !predict_correct; [|apply init_inv2; auto|apply run_inv2; auto; apply init_inv2; auto].
+    apply predict_spec_obs. rewrite obs_init.
+    set (s0 := run K keqb hash i ops).
+    destruct (run_inv2 ops i H (init_inv2 inputs ver tfcols params uid luid fx P)) as (I0 & _ & _).
+    fold s0 in I0.
+    destruct (run_inv ops i (hist_ok_hashed ops i H) (init_inv inputs ver tfcols params uid luid fx P)) as (_ & _ & Hin & Htf & _).
+    fold s0 in Hin, Htf. cbn in Hin, Htf.
+    assert (Es : s = step K keqb hash s0 (ChangeInputInvalidate v)) by (unfold s; rewrite run_app; reflexivity).
+    assert (Hp : st_params K (step K keqb hash s0 (ChangeInputInvalidate v)) = st_params K s0).
+    { pose proof (obs_after_change s0 v I0) as O. unfold obs in O. injection O. auto. }
+    rewrite Es, (obs_after_change s0 v I0), Hin, Htf, Hp. reflexivity.
+  Qed.
 End Proofs.
+
+(* ------------------------------------------------------------------ realtime.SQLCache *)
+Lemma rt_get_key_flag m : forall s f v,
+  (forall k v', In (k, v') m -> snd k = v') -> rt_get m (s, f) = Some v -> v = f.
+Proof.
+  induction m as [|[k v0] r IH]; cbn; intros s f v Hm; [discriminate|].
+  destruct (rt_key_eqb k (s, f)) eqn:E.
+  - intros H. inversion H; subst. unfold rt_key_eqb in E. apply andb_true_iff in E. destruct E as [_ E].
+    cbn in E. apply Bool.eqb_prop in E. rewrite <- E. symmetry. apply (Hm k v). auto.
+  - apply IH. intros k' v' Hin. apply Hm. auto.
+Qed.
+
+(* with the flag in the key, every call runs SQL generated for its own flag *)
+Theorem rt_transparent cs : forall m,
+  (forall k v, In (k, v) m -> snd k = v) ->
+  Forall2 (fun c out => fst out = rc_flag c) cs (rt_run true m cs).
+Proof.
+  induction cs as [|c r IH]; cbn; intros m Hm; [constructor|].
+  unfold rt_step, rt_key. destruct (rc_use_cache c); [destruct (rt_get m (rc_settings c, rc_flag c)) eqn:E|]; cbn.
+  - constructor; [cbn; eapply rt_get_key_flag; eauto | apply IH; auto].
+  - constructor; [reflexivity|]. apply IH. intros k v [H|H]; [inversion H; auto | auto].
+  - constructor; [reflexivity|]. apply IH. intros k v [H|H]; [inversion H; auto | auto].
+Qed.
